@@ -22,8 +22,8 @@ SHARED = {
     "C12": [("C11", "R11a"), ("C11", "R11b"), ("C11", "R11c"), ("C11", "R11e"), ("C13", "R13a"), ("C13", "R13b"), ("C07", "R07e"), ("C07", "R07a")],
     "C13": [("C16", "R16c"), ("C16", "R16d"), ("C16", "R16f")],
     "C14": [("C07", "R07e")],
-    "C19": [("C16", "R16e")],
-    "C20": [("C05", "R05d"), ("C12", "R12d")],
+    "C19": [("C16", "R16e"), ("C03", "R03b")],
+    "C20": [("C05", "R05d"), ("C12", "R12d"), ("C09", "R09c")],
 }
 
 
